@@ -2,7 +2,7 @@ CONSTANTS
   Order <- OrderAB
   MaxSteps = 6
   MaxDepth = 3
-  Steps = {1, 3}
+  Steps = {1, 3, 1200}
 SPECIFICATION Spec
 INVARIANTS SelfTime Root Shape Delta ReportComplete
 CHECK_DEADLOCK FALSE
